@@ -88,6 +88,7 @@ func init() {
 		return in.tb.Const(64, uint64(in.ex.Tier))
 	})
 	reg(RT+".Symbolic", func(in *Interp, fr *frame, args []Value) Value { return in.tb.T })
+	reg(RT+".TempDir", func(in *Interp, fr *frame, args []Value) Value { return "/data" })
 	reg(RT+".Stub", func(in *Interp, fr *frame, args []Value) Value {
 		if in.stubs == nil {
 			in.stubs = map[string]Value{}
@@ -754,6 +755,17 @@ func (in *Interp) patchGlobals(pkg *ssa.Package) {
 				cell := new(Value)
 				*cell = &Host{Kind: "dummy"}
 				*in.globals[g] = cell
+				in.patched[g] = true
+			}
+		}
+	case "crypto/rand":
+		rtp := in.prog.ImportedPackage(RT)
+		g, _ := pkg.Members["Reader"].(*ssa.Global)
+		if rtp != nil && g != nil {
+			if tn, ok := rtp.Members["RandReader"].(*ssa.Type); ok {
+				cell := new(Value)
+				*cell = in.zero(tn.Type())
+				*in.globals[g] = Iface{T: types.NewPointer(tn.Type()), V: cell}
 				in.patched[g] = true
 			}
 		}
